@@ -1715,3 +1715,78 @@ B('k18_mv_method_on_peripheral_no_handler', ['C18'], 'R18.c', *_mv([TRUNC, GRI, 
                                                                                                   "    def get_extra_routes(self):\n        return []\n\n    def safe_get_context(self, injectables):\n        return inject(self.get_context, injectables)\n"),
                                                                         AMPERI, RPERI, BPERI],
                                                                  extra=[(META, GMAIN, _GMAIN_SAFE)]))
+
+# ---- R18.c: whether a section is computed depends on the peripheral alone (never on what other sections left behind) ----------
+_RENDER_TRY = ("                cur['content'] = inject(peri.render_main_page_html, kwargs)\n\n                prev_exc = cur_context.get('exc_content')\n"
+               "                if prev_exc:\n                    cur['exc_content'] = prev_exc\n")
+B('k18_render_skipped_when_group_failed', ['C18'], 'R18.c', (META, _RENDER_TRY,
+  "                if not cur_context.get('exc_content'):\n                    cur['content'] = inject(peri.render_main_page_html, kwargs)\n                else:\n                    cur['exc_content'] = cur_context['exc_content']\n"))
+B('k18_context_only_for_first_of_group', ['C18'], 'R18.c', (META, GMAIN, '''        for peri in self.peripherals:
+            known = peri.group_key in full_ctx
+            try:
+                peri_ctx = {} if known else inject(peri.get_context, kwargs)
+            except Exception as e:
+                peri_ctx = {'exc_content': repr(e)}
+            full_ctx.setdefault(peri.group_key, {}).update(peri_ctx)
+        return full_ctx
+'''))
+B('k18_context_skipped_after_first_failure', ['C18'], 'R18.c', (META, GMAIN, '''        failed = False
+        for peri in self.peripherals:
+            peri_ctx = {}
+            try:
+                if not failed:
+                    peri_ctx = inject(peri.get_context, kwargs)
+            except Exception as e:
+                failed = True
+                peri_ctx = {'exc_content': repr(e)}
+            full_ctx.setdefault(peri.group_key, {}).update(peri_ctx)
+        return full_ctx
+'''))
+B('k18_general_items_guarded_by_continue', ['C18'], 'R18.c', (META, "            try:\n                cur_general_items = inject(peri.get_general_items, kwargs)\n",
+  "            if cur.get('exc_content'):\n                context['sections'].append(cur)\n                continue\n            try:\n                cur_general_items = inject(peri.get_general_items, kwargs)\n"))
+B('k18_helper_skips_when_context_has_error', ['C18'], 'R18.c', (META, GMAIN, '''        for peri in self.peripherals:
+            full_ctx.setdefault(peri.group_key, {}).update(self._peri_context(peri, kwargs, full_ctx))
+        return full_ctx
+
+    def _peri_context(self, peri, kwargs, full_ctx):
+        if 'exc_content' in full_ctx.get(peri.group_key, {}):
+            return {}
+        try:
+            return inject(peri.get_context, kwargs)
+        except Exception as e:
+            return {'exc_content': repr(e)}
+'''))
+T('k18_render_guarded_by_peripheral_attribute', ['C18'], (META, "                cur['content'] = inject(peri.render_main_page_html, kwargs)\n",
+  "                if getattr(peri, 'renders_html', True):\n                    cur['content'] = inject(peri.render_main_page_html, kwargs)\n"))
+T('k18_context_guarded_by_named_peripheral_test', ['C18'], (META, GMAIN, '''        for peri in self.peripherals:
+            has_context = callable(getattr(peri, 'get_context', None))
+            try:
+                peri_ctx = inject(peri.get_context, kwargs) if has_context else {}
+            except Exception as e:
+                peri_ctx = {'exc_content': repr(e)}
+            full_ctx.setdefault(peri.group_key, {}).update(peri_ctx)
+        return full_ctx
+'''))
+T('k18_context_guarded_by_configuration', ['C18'], (META, "        self.page_title = page_title\n", "        self.page_title = page_title\n        self.skip_groups = ()\n"),
+  (META, GMAIN, '''        for peri in self.peripherals:
+            if peri.group_key in self.skip_groups:
+                continue
+            try:
+                peri_ctx = inject(peri.get_context, kwargs)
+            except Exception as e:
+                peri_ctx = {'exc_content': repr(e)}
+            full_ctx.setdefault(peri.group_key, {}).update(peri_ctx)
+        return full_ctx
+'''))
+T('k18_helper_guarded_by_peripheral_param', ['C18'], (META, GMAIN, '''        for peri in self.peripherals:
+            full_ctx.setdefault(peri.group_key, {}).update(self._peri_context(peri, kwargs))
+        return full_ctx
+
+    def _peri_context(self, peri, kwargs):
+        if not hasattr(peri, 'get_context'):
+            return {}
+        try:
+            return inject(peri.get_context, kwargs)
+        except Exception as e:
+            return {'exc_content': repr(e)}
+'''))
